@@ -14,6 +14,8 @@ import (
 	"verif/h"
 )
 
+const stallKey = "idle-unauthenticated-connections-stall-existing-session"
+
 var stallMu sync.Mutex // one stall case at a time: concurrent ones would only add their stalls up
 
 func stallCase(c *h.Case) {
@@ -25,6 +27,10 @@ func stallCase(c *h.Case) {
 	c.Data["kind"], c.Data["server"], c.Data["idle_connections"], c.Data["mode"] = "stall", si.Name, k, first
 	stallMu.Lock()
 	defer stallMu.Unlock()
+	if wd(stallKey) < 20*time.Second {
+		run.Count("stall_cases_skipped_after_three_findings", 1)
+		return
+	}
 	if _, err := probeTCP(si.IncPort, si.Inc.ID+"|"); err != nil {
 		run.Inconclusive("incumbent tunnel not working before the case")
 		return
@@ -67,7 +73,8 @@ func stallCase(c *h.Case) {
 		c.Ev("probe", "n", i, "id", id, "err", fmt.Sprint(err), "ms", time.Since(t0).Milliseconds())
 	}
 	if err != nil {
-		c.Violation("idle-unauthenticated-connections-stall-existing-session", "[%s] %d websocket connections that never sent a byte were open: the tunnel of the incumbent (a websocket client; tcpMux off, so every work connection is a new connection to the same listener) failed twice in a row within %v: %q %v",
+		wdFired(stallKey)
+		c.Violation(stallKey, "[%s] %d websocket connections that never sent a byte were open: the tunnel of the incumbent (a websocket client; tcpMux off, so every work connection is a new connection to the same listener) failed twice in a row within %v: %q %v",
 			si.Name, len(idle), time.Since(t0).Round(time.Millisecond), id, err)
 	} else {
 		run.Count("incumbent_probes_ok", int64(n))
